@@ -11,10 +11,8 @@ import sys, os, json, itertools
 from . import common
 from .common import *
 
-CLASSES = ['NetworkNode', 'Component', 'CompositeNode', 'NetworkService', 'ConnectionPoint', 'Link']
-RELS = ['has', 'connects', 'depends', 'peers']
-CLS_N = {c: i + 1 for i, c in enumerate(CLASSES)}
-REL_N = {r: i + 1 for i, r in enumerate(RELS)}
+sys.path.insert(0, os.path.join(VERIF, 'translator'))
+from gen_query6 import CLASSES, RELS, CLS_N, REL_N      # one interning table for translator, harness and std_vocab
 KNOWN_TAG = 'KNOWN-rel2-filter-ineffective'
 
 
@@ -375,9 +373,8 @@ def c_query(q, res):
     raise ValueError(k)
 
 
-VOCAB = '(mkVocab %d %d %d %d %d %d %d %d)' % (REL_N['has'], REL_N['connects'], CLS_N['NetworkNode'], CLS_N['Component'],
-                                            CLS_N['CompositeNode'], CLS_N['NetworkService'], CLS_N['ConnectionPoint'],
-                                            CLS_N['Link'])
+VOCAB = 'std_vocab'
+assert [REL_N['has'], REL_N['connects']] + [CLS_N[c] for c in CLASSES] == [1, 2, 1, 2, 3, 4, 5, 6]   # = Model std_vocab
 
 
 def c_store(raw):
@@ -686,12 +683,13 @@ class ExhaustiveStream(QueryStream):
 
 class C06(Check):
     pid = 'C06'
-    translators = []
+    translators = ['gen_query6']
     model_targets = ['Model/Query6.vo', 'Model/Query6Check.vo']
     streams = [RandomStream(), ExhaustiveStream()]
     trusted_base = [
         'Coq 8.16.1 kernel (coqc), vm_compute for the correspondence evaluation; no native_compute',
         'Print Assumptions of every C06 theorem: Closed under the global context (no axioms)',
+        'translator/gen_query6.py + translator/pyast.py (helper bodies and constants -> Gen/Query6Gen.v), fail-closed',
         'harness/c06.py + harness/common.py (graph generation, raw read-back of the networkx node/edge dictionaries, '
         'recording of query results, cases.v writer, the independent oracle)',
         'modelled not verified: networkx (Graph adjacency / add_edge overwrite, to_dict_of_dicts/from_dict_of_dicts in '
